@@ -27,9 +27,9 @@ MUTANTS = [
     ("setitem_insert_first_c04", "C04", "expressions/set.py",
      "        self.values.append(new_binding)\n        if self.attrpath_order:\n            self.attrpath_order.append(new_binding)",
      "        self.values.insert(0, new_binding)\n        if self.attrpath_order:\n            self.attrpath_order.insert(0, new_binding)"),
-    ("delitem_keeps_order_cache", "C05", "expressions/set.py",
-     "                del self.values[i]\n                if self.attrpath_order:\n                    for index, item in enumerate(self.attrpath_order):\n                        if item is binding:\n                            del self.attrpath_order[index]\n                            break",
-     "                del self.values[i]"),
+    ("reconcile_disabled", "C14", "expressions/set.py",
+     "    if not order:\n        return values\n\n    live: dict",
+     "    if True:\n        return order if order else values\n\n    live: dict"),
     ("attrpath_prune_missing", "C05", "cli/manipulations.py",
      "        if isinstance(binding.value, AttributeSet) and not binding.value.values:\n            parent_set.values.remove(binding)\n        else:\n            break",
      "        break"),
@@ -57,8 +57,8 @@ MUTANTS = [
      "    sys.stdout.write(text if text.endswith(\"\\n\") else text + \"\\n\")",
      "    sys.stdout.write(text + \"\\n\")"),
     ("cli_exit0_on_error", "C16", "cli/main.py",
-     "        case \"rm\":\n            source = parse(args.file.read())\n            _emit(\n                remove_value(\n                    source=source,\n                    npath=args.npath,\n                )\n            )\n            return 0",
-     "        case \"rm\":\n            source = parse(args.file.read())\n            try:\n                _emit(remove_value(source=source, npath=args.npath))\n            except KeyError as exc:\n                print(exc, file=sys.stderr)\n            return 0"),
+     "        case \"rm\":\n            source = parse(_read_input(args.file))\n            _emit(\n                remove_value(\n                    source=source,\n                    npath=args.npath,\n                )\n            )\n            return 0",
+     "        case \"rm\":\n            source = parse(_read_input(args.file))\n            try:\n                _emit(remove_value(source=source, npath=args.npath))\n            except KeyError as exc:\n                print(exc, file=sys.stderr)\n            return 0"),
     ("resolved_path_uses_cwd", "C17", "expressions/path.py",
      "            resolved = self.source_path.parent / resolved",
      "            resolved = Path.cwd() / resolved"),
@@ -74,9 +74,9 @@ MUTANTS = [
     ("mapping_delitem_values_only", "C14", "expressions/scope.py",
      "            binding = super().__getitem__(index)\n            super().__delitem__(index)\n            attrpath_order = self._attrpath_order()",
      "            binding = super().__getitem__(index)\n            attrpath_order = self._attrpath_order()"),
-    ("trailing_restore_appends", "C19", "cli/manipulations.py",
-     "            removed_layer and layers and removed_layer.get(\"body_after\")",
-     "            removed_layer and removed_layer.get(\"body_after\")"),
+    ("replace_moves_binding_last", "C19", "cli/manipulations.py",
+     "            binding.value = value_expr\n            return\n        target_set[key] = value_expr",
+     "            binding.value = value_expr\n            if binding in target_set.attrpath_order:\n                target_set.attrpath_order.remove(binding)\n                target_set.attrpath_order.append(binding)\n            return\n        target_set[key] = value_expr"),
 ]
 for _m in MUTANTS:
     assert len(_m) in (5, 6)
